@@ -251,9 +251,55 @@ void run_program(vh::Reader &rd, Env &e, ThreadResult &res, const std::string &l
   auto note     = [&](const std::string &s) { res.notes += " " + label + s + "\n"; };
   try
   {
-    for (unsigned op = 0; op < nops && (op < 3 || !rd.exhausted()); ++op)
+    // "nest" / "unwind" bursts drive the active-span stack deep (the runtime context's storage grows
+    // 2,6,14,30,.. and code on its resize paths only runs beyond depth 6) and back down in LIFO order
+    unsigned chain_left = 0, chain_phase = 0, unwind_left = 0;
+    for (unsigned op = 0; chain_left || unwind_left || (op < nops && (op < 3 || !rd.exhausted()));)
     {
-      size_t kind = rd.weighted({6, 3, 2, 2});
+      size_t kind;
+      bool forced_none = false, forced_last = false;
+      if (chain_left)
+      {
+        if (chain_phase == 0)
+        {
+          kind        = 0;
+          forced_none = true;
+          chain_phase = 1;
+        }
+        else
+        {
+          kind        = 1;
+          forced_last = true;
+          chain_phase = 0;
+          --chain_left;
+        }
+      }
+      else if (unwind_left)
+      {
+        kind = scopes.empty() ? 0 : 2;
+        if (scopes.empty())
+          unwind_left = 0;
+        else
+          --unwind_left;
+      }
+      else
+      {
+        ++op;
+        kind = rd.weighted({6, 3, 2, 2, 1, 1});
+        if (kind == 4)
+        {
+          chain_left = 3 + rd.below(9);
+          res.tags.push_back("nest-burst");
+          continue;
+        }
+        if (kind == 5)
+        {
+          unwind_left = 1 + rd.below(8);
+          continue;
+        }
+      }
+      if (scopes.size() >= 7)
+        res.tags.push_back("depth>=7");
       if (kind == 1 && spans.empty())
         kind = 0;
       if (kind == 2 && scopes.empty())
@@ -270,7 +316,7 @@ void run_program(vh::Reader &rd, Env &e, ThreadResult &res, const std::string &l
         tr::SpanContext expected_parent = active;  // default: the active span (invalid if none)
         std::string form;
         int mechanisms = active.IsValid() ? 1 : 0;
-        switch (rd.weighted({4, 3, 2, 3, 2, 2}))
+        switch (forced_none ? 0 : rd.weighted({4, 3, 2, 3, 2, 2}))
         {
           case 0:
             form = "none";
@@ -459,7 +505,7 @@ void run_program(vh::Reader &rd, Env &e, ThreadResult &res, const std::string &l
       }
       else if (kind == 1)
       {
-        size_t i = rd.below(static_cast<uint32_t>(spans.size()));
+        size_t i = forced_last ? spans.size() - 1 : rd.below(static_cast<uint32_t>(spans.size()));
         note("Activate(span#" + std::to_string(i) + ")");
         scopes.emplace_back(i, std::unique_ptr<tr::Scope>(new tr::Scope(spans[i].span)));
         auto cur = tr::Tracer::GetCurrentSpan()->GetContext();
